@@ -65,8 +65,8 @@ theorem C06_timeout_inbound (s : St) (cid : Nat) (c : Conn)
     checkTimers s cid = closeConnectionSocket s cid .failCe := by
   have hne : (Dir.recv == Dir.send) = false := by decide
   have hb : Nat.blt s.cfg.cer (s.now - c.established) = true := by
-    simp only [Nat.blt, Nat.ble_eq, decide_eq_true_eq]; omega
-  simp [checkTimers, hstop, hc, hst, hdir, hp, hk, hne, hb]
+    rw [Nat.blt_eq]; exact hlate
+  simp [checkTimers, hstop, hc, hst, hdir, hp, hk, hne, hb, effTimer]
 
 theorem C06_config : Config.gateClosing = true ∧ Config.ceTimeoutFromEstablished = true := ⟨rfl, rfl⟩
 
